@@ -164,6 +164,29 @@ static KSI_PublicationRecord *make_pubrec(KSI_CTX *ctx, uint64_t t, const unsign
 }
 
 /* target: 0 head (no time), 1 equal to aggregation time, 2 later, 3 earlier; pubrec: 0 none, 1 matching record, 2 record with another hash, 3 record with another time */
+/* the order of the elements inside a signature is free: the same signature with its publication / authentication record
+ * listed FIRST (before the aggregation chains) */
+static int g_rec_first;
+static void record_first(vbuf *sb) {
+	rtlv top, t, last;
+	size_t off = 0, last_off = 0;
+	vbuf out, pl;
+	int have = 0;
+	if (rtlv_read(sb->p, sb->n, &top) != 0) vf_harness_error("record_first");
+	while (off < top.len) {
+		if (rtlv_read(top.val + off, top.len - off, &t) != 0) vf_harness_error("record_first: child");
+		last = t; last_off = off; have = 1;
+		off += t.hdr + t.len;
+	}
+	if (!have || (last.tag != 0x0803 && last.tag != 0x0805)) return;
+	vb_init(&out); vb_init(&pl);
+	vb_put(&pl, top.val + last_off, last.hdr + last.len);
+	vb_put(&pl, top.val, last_off);
+	rtlv_put(&out, top.tag, 0, 0, pl.p, pl.n, 1);
+	vb_reset(sb); vb_putvb(sb, &out);
+	vb_free(&out); vb_free(&pl);
+}
+
 static void one_case(int iface, int transport, int version, int src_tail, int nchains, int target, int pubrec, int reply, int sub) {
 	KSI_CTX *ctx = ku_ctx();
 	rs_params p;
@@ -189,6 +212,7 @@ static void one_case(int iface, int transport, int version, int src_tail, int nc
 	rs_build(&src, &p);
 	vb_init(&sb); vb_init(&rb);
 	rs_serialize(&src, &sb);
+	if (g_rec_first) record_first(&sb);
 	if (KSI_Signature_parse(ctx, sb.p, sb.n, &sig) != KSI_OK) vf_harness_error("source signature refused");
 	rs_aggr_root(&src, 0, S.root, &S.root_len, NULL);
 	switch (target) { case 0: target_time = 0; break; case 1: target_time = T0; break; case 2: target_time = T0 + 86400 * 12 + 5; break; default: target_time = T0 - 3600; break; }
@@ -323,7 +347,23 @@ static void run(void) {
 	}
 }
 
+static void run_all(void) {
+	int iface, tr, tail, target, pubrec;
+	run();
+	/* sources whose record comes first */
+	g_rec_first = 1;
+	for (iface = 0; iface < 3; iface++) for (tr = 0; tr < 2; tr++) for (tail = 2; tail <= 3; tail++) for (target = 0; target < 3; target += 2) for (pubrec = 0; pubrec < 2; pubrec++) {
+		if (iface == 0 && pubrec != 0) continue;
+		if (iface != 0 && pubrec == 0 && target != 0) continue;
+		if (!vf_case_begin("ext-recfirst:if%d:tr%d:tail%d:target%d:pr%d", iface, tr, tail, target, pubrec)) continue;
+		one_case(iface, tr, 2, tail, 1, target, pubrec, R_CORRECT, 0);
+		vf_outcome("source:record-first");
+		vf_case_end(1);
+	}
+	g_rec_first = 0;
+}
+
 int main(int argc, char **argv) {
-	vf_driver d = {"C08", run};
+	vf_driver d = {"C08", run_all};
 	return vf_main(argc, argv, &d);
 }
